@@ -43,7 +43,13 @@ def _const(fn):
 
 UNIFORM = dict(params=dict(domain='obj:Domain'), requires=[], pure={'Factor.ones': 'obj', '.size': 'real'}, numeric_objects=True, division='abort',
                ensures={'uniform:ones-divided-by-the-number-of-cells': 'same(result, Factor.ones(domain) / domain.size())'})
-CONST_ITEMS = [('src/mbi/factor.py', 'Factor.zeros', _const('zeros')), ('src/mbi/factor.py', 'Factor.ones', _const('ones')),
+# the constructor itself: the table is stored in the shape of the domain (a flat vector is laid out in domain order: numpy reshape, extern),
+# on the domain given - what the label-level contracts of pv/contracts/factor.py assume at every `Factor(domain, values)` site
+FACTOR_INIT = dict(params=dict(self='obj:Factor', domain='obj:Domain', values='obj:'), requires=[], pure={'.size': 'obj', '.reshape': 'obj'},
+                   sites=[dict(func='.reshape', arg=0, name='init:table-stored-in-the-shape-of-the-domain', spec='same(__arg, domain.shape)')],
+                   ensures={'init:domain-stored-as-given': 'same(self.domain, domain)',
+                            'init:values-are-the-given-table-reshaped': 'same(self.values, values.reshape(domain.shape))'})
+CONST_ITEMS = [('src/mbi/factor.py', 'Factor.__init__', FACTOR_INIT), ('src/mbi/factor.py', 'Factor.zeros', _const('zeros')), ('src/mbi/factor.py', 'Factor.ones', _const('ones')),
                ('src/mbi/factor.py', 'Factor.uniform', UNIFORM)]
 
 ITEMS = [('src/mbi/factor.py', 'Factor.active', ACTIVE), ('src/mbi/inference.py', 'FactoredInference.__init__', _init('FactoredInference')),
